@@ -2,10 +2,12 @@
    settings. Property theorems only; each is closed by [exact] of a lemma
    proved in Proofs/C03.v and followed by Print Assumptions.
 
-   [update/run ... true] is Filter.update with both repairs
-   (fixes_proposed/C03-removed-range-keys.diff = 1ad19c0 and
-   fixes_proposed/C03-valueerror-before-mutation.diff), [... false] the code
-   before the first repair. [err w' = false] says that the application did not
+   [update/run ... HEAD] is Filter.update with its three repairs
+   (fixes_proposed/C03-removed-range-keys.diff = 1ad19c0,
+   C03-valueerror-before-mutation.diff = 2db14c2, C03-range-on-late-feature.diff);
+   [V0], [V1], [V2] are the code before the first, second and third repair.
+   The set of scalar features of the dataset is part of the state (temporary
+   features are added and removed by AddFeat/DelFeat). [err w' = false] says that the application did not
    raise ValueError (C03_apply_raises_iff: it raises exactly when some range
    has only one of its two keys). [hashf] (PolygonFilter.hash) and [choice] (the seeded
    np.random.choice behind "limit events") are oracles: their hypotheses are
@@ -21,16 +23,16 @@ Open Scope Z_scope.
    specification of the current settings. *)
 Theorem C03_filter_history :
   forall (hashf : Z -> bool -> Z) (choice : Z -> Z -> list Z)
-         (rows : list row) (feats : list Z),
+         (rows : list row),
     (forall v b v' b', hashf v b = hashf v' b' -> v = v' /\ b = b') ->
-    forall (reg0 : registry) (ops : list op) (force : list Z),
-      let w := run hashf choice rows feats true (init_world rows reg0) ops in
-      let w' := update hashf choice rows feats true w force in
+    forall (reg0 : registry) (feats0 : list Z) (ops : list op) (force : list Z),
+      let w := run hashf choice rows HEAD (init_world rows reg0 feats0) ops in
+      let w' := update hashf choice rows HEAD w force in
       err w' = false ->
-      a_all (flt w') = spec_all choice rows feats w /\
-      a_box (flt w') = spec_box rows feats w /\
+      a_all (flt w') = spec_all choice rows w /\
+      a_box (flt w') = spec_box rows w /\
       a_polygon (flt w') = spec_polygon rows w /\
-      a_invalid (flt w') = spec_invalid rows feats w.
+      a_invalid (flt w') = spec_invalid rows w.
 Proof. exact history_ok. Qed.
 Print Assumptions C03_filter_history.
 
@@ -38,11 +40,11 @@ Print Assumptions C03_filter_history.
    only one of its two keys, whatever happened before. *)
 Theorem C03_apply_raises_iff :
   forall (hashf : Z -> bool -> Z) (choice : Z -> Z -> list Z)
-         (rows : list row) (feats : list Z),
+         (rows : list row),
     (forall v b v' b', hashf v b = hashf v' b' -> v = v' /\ b = b') ->
-    forall (reg0 : registry) (ops : list op) (force : list Z),
-      let w := run hashf choice rows feats true (init_world rows reg0) ops in
-      err (update hashf choice rows feats true w force) = true
+    forall (reg0 : registry) (feats0 : list Z) (ops : list op) (force : list Z),
+      let w := run hashf choice rows HEAD (init_world rows reg0 feats0) ops in
+      err (update hashf choice rows HEAD w force) = true
       <-> exists f, half_set (rng (cfg w)) f = true.
 Proof. exact history_raises. Qed.
 Print Assumptions C03_apply_raises_iff.
@@ -51,47 +53,47 @@ Print Assumptions C03_apply_raises_iff.
    events remain after any history, and every one of them qualifies. *)
 Theorem C03_limit_exact :
   forall (hashf : Z -> bool -> Z) (choice : Z -> Z -> list Z)
-         (rows : list row) (feats : list Z),
+         (rows : list row),
     (forall v b v' b', hashf v b = hashf v' b' -> v = v' /\ b = b') ->
-    forall (reg0 : registry) (ops : list op) (force : list Z),
+    forall (reg0 : registry) (feats0 : list Z) (ops : list op) (force : list Z),
       (forall m k, 0 < k < m ->
          NoDup (choice m k) /\ Z.of_nat (length (choice m k)) = k /\
          Forall (fun i => 0 <= i < m) (choice m k)) ->
-      let w := run hashf choice rows feats true (init_world rows reg0) ops in
-      let w' := update hashf choice rows feats true w force in
+      let w := run hashf choice rows HEAD (init_world rows reg0 feats0) ops in
+      let w' := update hashf choice rows HEAD w force in
       err w' = false ->
       enable (cfg w) = true -> 0 < limit (cfg w) ->
       count_true (a_all (flt w'))
-      = Z.min (limit (cfg w)) (count_true (spec_qual rows feats w)) /\
+      = Z.min (limit (cfg w)) (count_true (spec_qual rows w)) /\
       Forall2 (fun a q => a = true -> q = true)
-              (a_all (flt w')) (spec_qual rows feats w).
+              (a_all (flt w')) (spec_qual rows w).
 Proof. exact history_limit. Qed.
 Print Assumptions C03_limit_exact.
 
 (* Without a limit the selection is exactly the set of qualifying events. *)
 Theorem C03_no_limit_all_qualifying :
   forall (hashf : Z -> bool -> Z) (choice : Z -> Z -> list Z)
-         (rows : list row) (feats : list Z),
+         (rows : list row),
     (forall v b v' b', hashf v b = hashf v' b' -> v = v' /\ b = b') ->
-    forall (reg0 : registry) (ops : list op) (force : list Z),
-      let w := run hashf choice rows feats true (init_world rows reg0) ops in
-      err (update hashf choice rows feats true w force) = false ->
+    forall (reg0 : registry) (feats0 : list Z) (ops : list op) (force : list Z),
+      let w := run hashf choice rows HEAD (init_world rows reg0 feats0) ops in
+      err (update hashf choice rows HEAD w force) = false ->
       enable (cfg w) = true -> limit (cfg w) <= 0 ->
-      a_all (flt (update hashf choice rows feats true w force))
-      = spec_qual rows feats w.
+      a_all (flt (update hashf choice rows HEAD w force))
+      = spec_qual rows w.
 Proof. exact history_no_limit. Qed.
 Print Assumptions C03_no_limit_all_qualifying.
 
 (* With filters disabled every event is selected. *)
 Theorem C03_disabled_selects_all :
   forall (hashf : Z -> bool -> Z) (choice : Z -> Z -> list Z)
-         (rows : list row) (feats : list Z),
+         (rows : list row),
     (forall v b v' b', hashf v b = hashf v' b' -> v = v' /\ b = b') ->
-    forall (reg0 : registry) (ops : list op) (force : list Z),
-      let w := run hashf choice rows feats true (init_world rows reg0) ops in
-      err (update hashf choice rows feats true w force) = false ->
+    forall (reg0 : registry) (feats0 : list Z) (ops : list op) (force : list Z),
+      let w := run hashf choice rows HEAD (init_world rows reg0 feats0) ops in
+      err (update hashf choice rows HEAD w force) = false ->
       enable (cfg w) = false ->
-      a_all (flt (update hashf choice rows feats true w force))
+      a_all (flt (update hashf choice rows HEAD w force))
       = map (fun _ => true) rows.
 Proof. exact history_disabled. Qed.
 Print Assumptions C03_disabled_selects_all.
@@ -100,17 +102,18 @@ Print Assumptions C03_disabled_selects_all.
    same events, whatever happened before. *)
 Theorem C03_selection_depends_on_settings_only :
   forall (hashf : Z -> bool -> Z) (choice : Z -> Z -> list Z)
-         (rows : list row) (feats : list Z),
+         (rows : list row),
     (forall v b v' b', hashf v b = hashf v' b' -> v = v' /\ b = b') ->
-    forall (reg1 : registry) (ops1 : list op) (force1 : list Z)
-           (reg2 : registry) (ops2 : list op) (force2 : list Z),
-      let w1 := run hashf choice rows feats true (init_world rows reg1) ops1 in
-      let w2 := run hashf choice rows feats true (init_world rows reg2) ops2 in
+    forall (reg1 : registry) (feats1 : list Z) (ops1 : list op) (force1 : list Z)
+           (reg2 : registry) (feats2 : list Z) (ops2 : list op) (force2 : list Z),
+      let w1 := run hashf choice rows HEAD (init_world rows reg1 feats1) ops1 in
+      let w2 := run hashf choice rows HEAD (init_world rows reg2 feats2) ops2 in
       cfg w1 = cfg w2 -> reg w1 = reg w2 -> manual (flt w1) = manual (flt w2) ->
-      err (update hashf choice rows feats true w1 force1) = false ->
-      err (update hashf choice rows feats true w2 force2) = false ->
-      a_all (flt (update hashf choice rows feats true w1 force1))
-      = a_all (flt (update hashf choice rows feats true w2 force2)).
+      feats w1 = feats w2 ->
+      err (update hashf choice rows HEAD w1 force1) = false ->
+      err (update hashf choice rows HEAD w2 force2) = false ->
+      a_all (flt (update hashf choice rows HEAD w1 force1))
+      = a_all (flt (update hashf choice rows HEAD w2 force2)).
 Proof. exact history_reproducible. Qed.
 Print Assumptions C03_selection_depends_on_settings_only.
 
@@ -125,14 +128,38 @@ Theorem C03_spec_range_semantics :
 Proof. exact (conj in_range_nan (conj in_range_swap in_range_inclusive)). Qed.
 Print Assumptions C03_spec_range_semantics.
 
-(* The code before repair 1ad19c0 does NOT satisfy the history theorem: set a
-   range, apply, delete the range; the next application keeps the old box
-   filter (one event with deform = 1, range [0.25, 0.75]). *)
+(* The three repaired defects: each earlier version of Filter.update does NOT
+   satisfy the history theorem (vm_compute witnesses; the same histories are
+   corpus cases of the harness).
+   Before 1ad19c0: set a range, apply, delete the range; the next application
+   keeps the old box filter. *)
 Theorem C03_filter_history_unrepaired_refuted :
   forall (hashf : Z -> bool -> Z) (choice : Z -> Z -> list Z),
-    let w := run hashf choice refute_rows [0] false
-                 (init_world refute_rows []) refute_ops in
-    a_all (flt (update hashf choice refute_rows [0] false w []))
-    <> spec_all choice refute_rows [0] w.
+    let w := run hashf choice refute_rows V0
+                 (init_world refute_rows [] [0]) refute_ops in
+    let w' := update hashf choice refute_rows V0 w [] in
+    err w' = false /\ a_all (flt w') <> spec_all choice refute_rows w.
 Proof. exact unrepaired_refuted. Qed.
 Print Assumptions C03_filter_history_unrepaired_refuted.
+
+(* Before 2db14c2 (pairing check inside the loop): range [1,2] applied; range
+   changed to [3,4] together with a lone "min" key of a later feature: the
+   application raises after the first box filter was recomputed; [1,2] is
+   restored and the lone key removed: the [3,4] mask stays. *)
+Theorem C03_filter_history_sequential_raise_refuted :
+  forall (hashf : Z -> bool -> Z) (choice : Z -> Z -> list Z),
+    let w := run hashf choice exc_rows V1 (init_world exc_rows [] [0; 1]) exc_ops in
+    let w' := update hashf choice exc_rows V1 w [] in
+    err w' = false /\ a_all (flt w') <> spec_all choice exc_rows w.
+Proof. exact sequential_raise_refuted. Qed.
+Print Assumptions C03_filter_history_sequential_raise_refuted.
+
+(* Without the late-feature repair: a range configured and applied before its
+   (temporary) feature exists is not applied once the feature exists. *)
+Theorem C03_filter_history_late_feature_refuted :
+  forall (hashf : Z -> bool -> Z) (choice : Z -> Z -> list Z),
+    let w := run hashf choice exc_rows V2 (init_world exc_rows [] [0]) late_ops in
+    let w' := update hashf choice exc_rows V2 w [] in
+    err w' = false /\ a_all (flt w') <> spec_all choice exc_rows w.
+Proof. exact late_feature_refuted. Qed.
+Print Assumptions C03_filter_history_late_feature_refuted.
